@@ -221,7 +221,8 @@ class StmtGen:
             return out + ['%sENDIF' % ind]
         if k == 5:           # CASE
             ty = r.choice(['INTEGER', 'INTEGER', 'REAL', 'CHAR', 'STRING', 'BOOLEAN'])
-            v = self.env.pick(r, ty)
+            simple = [x for x in self.env.v.get(ty, []) if x.replace('_', '').isalnum()]      # CASE OF takes a plain identifier
+            v = r.choice(simple) if simple else None
             if not v: return self.trace(ind, tag)
             out = ['%sCASE OF %s' % (ind, v)]
             for _ in range(r.randint(1, 4)):
@@ -351,3 +352,69 @@ def compound_loop_program(rng):
     # the same node, then an index outside the bounds
     L += ['FOR i <- %d TO %d' % (lo, hi + 1), '  OUTPUT "last ", pts[i].x', 'NEXT i', 'OUTPUT "not reached"']
     return join(L)
+
+
+# ----------------------------------------------------------------------------- rich cross-feature programs
+RICH_DECLS = [
+    'CONSTANT KI = 7', 'CONSTANT KS = "konst"',
+    'DECLARE a1 : ARRAY[0:3] OF INTEGER', 'DECLARE a1b : ARRAY[0:3] OF INTEGER', 'DECLARE a2 : ARRAY[1:2] OF STRING', 'DECLARE m2 : ARRAY[1:2, -1:1] OF INTEGER', 'DECLARE ar : ARRAY[1:3] OF REAL',
+    'TYPE Rec', '  DECLARE x : INTEGER', '  DECLARE s : STRING', '  DECLARE r : REAL', '  DECLARE v : ARRAY[1:3] OF INTEGER', 'ENDTYPE',
+    'TYPE Col = (red, green, blue)', 'TYPE IP = ^INTEGER', 'TYPE RP = ^Rec',
+    'DECLARE rec1 : Rec', 'DECLARE rec2 : Rec', 'DECLARE recs : ARRAY[1:3] OF Rec', 'DECLARE col : Col', 'DECLARE col2 : Col',
+    'DECLARE p : IP', 'DECLARE q : IP', 'DECLARE rp : RP', 'DECLARE line : STRING', 'DECLARE k : INTEGER', 'DECLARE j : INTEGER',
+    'PROCEDURE inc(BYREF x : INTEGER, BYVAL n : INTEGER)', '  x <- x + n', '  n <- 0', 'ENDPROCEDURE',
+    'PROCEDURE setrec(BYREF t : Rec, n : INTEGER)', '  t.x <- n', '  t.s <- "set" & n', '  t.v[2] <- n * 2', 'ENDPROCEDURE',
+    'PROCEDURE byvalrec(t : Rec)', '  t.x <- -1', '  t.v[1] <- -1', '  OUTPUT "in byvalrec ", t.x', 'ENDPROCEDURE',
+    'FUNCTION sum(n : INTEGER) RETURNS INTEGER', '  IF n <= 0 THEN', '    RETURN 0', '  ENDIF', '  RETURN n + sum(n - 1)', 'ENDFUNCTION',
+    'FUNCTION mk(n : INTEGER) RETURNS Rec', '  DECLARE t : Rec', '  t.x <- n', '  t.s <- "mk"', '  t.r <- n / 2', '  t.v[3] <- n', '  RETURN t', 'ENDFUNCTION',
+    'FUNCTION half(z : REAL) RETURNS REAL', '  RETURN z / 2', 'ENDFUNCTION',
+]
+RICH_INIT = ['FOR k <- 0 TO 3', '  a1[k] <- k * 11', 'NEXT k', 'a2[1] <- "one"', 'a2[2] <- "two"',
+             'FOR k <- 1 TO 2', '  FOR j <- -1 TO 1', '    m2[k, j] <- k * 10 + j', '  NEXT j', 'NEXT k',
+             'FOR k <- 1 TO 3', '  ar[k] <- k / 4', '  recs[k].x <- k', '  recs[k].s <- "r" & k', '  recs[k].r <- k + 0.5', '  recs[k].v[k] <- k * 100', 'NEXT k',
+             'rec1.x <- 5', 'rec1.s <- "five"', 'rec1.r <- 5.5', 'rec1.v[1] <- 51', 'rec2 <- rec1', 'col <- green', 'col2 <- red', 'p <- ^i1', 'q <- ^a1[2]', 'rp <- ^rec2']
+RICH_LVALS = {'INTEGER': ['a1[0]', 'a1[3]', 'a1[i1 MOD 4]', 'm2[1, -1]', 'm2[2, 1]', 'rec1.x', 'rec2.x', 'recs[1].x', 'recs[3].x', 'rec1.v[2]', 'recs[2].v[2]', 'p^', 'q^', 'rp^.x', 'k'],
+              'STRING': ['a2[1]', 'a2[2]', 'rec1.s', 'recs[2].s', 'rp^.s'],
+              'REAL': ['ar[1]', 'ar[3]', 'rec1.r', 'recs[3].r']}
+RICH_SPECIAL = [
+    'CALL inc(i1, 3)', 'CALL inc(a1[1], i2)', 'CALL inc(rec1.x, 1)', 'CALL inc(recs[2].x, KI)', 'CALL inc(p^, 2)', 'CALL setrec(rec1, i1)', 'CALL byvalrec(rec1)',
+    'CALL byvalrec(recs[1])', 'i2 <- sum(4)', 'i3 <- sum(a1[1] MOD 5)', 'rec2 <- rec1', 'rec1 <- mk(i1)', 'recs[1] <- rec2', 'recs[2] <- mk(3)', 'rec2 <- recs[3]', 'r1 <- half(r2)', 'r2 <- half(i1)',
+    'a1b <- a1', 'a1 <- a1b', 'rec1.v <- rec2.v', 'recs[1].v <- rec1.v', 'rec2.v <- recs[3].v', 'a1b[2] <- 5', 'rec2.v[1] <- 77',
+    'col <- col + 1', 'col2 <- col - 2', 'col <- blue', 'OUTPUT col, " ", col2, " ", col = col2', 'p <- ^i2', 'q <- p', 'p <- ^rec1.x', 'q <- ^recs[2].x', 'rp <- ^recs[1]', 'rp <- ^rec1',
+    'a1[i1 MOD 4] <- a1[(i1 + 1) MOD 4] + 1', 'm2[1 + i1 MOD 2, i2 MOD 2] <- i3', 'ar[2] <- r1 * 2', 'a2[1 + i1 MOD 2] <- s1 & a2[1]',
+    'd1 <- SETDATE(DAY(d2), MONTH(d2), YEAR(d2))', 'OUTPUT d1 < d2, " ", DAYINDEX(d1)', 'OUTPUT KI + i1, " ", KS & s1', 'c1 <- MID(s1 & "xyz", 1 + LENGTH(s1) MOD 3, 1)',
+    'OUTPUT INT(r1), " ", INT(0 - r2), " ", STR_TO_NUM("12.5") + i1', 'OUTPUT NUM_TO_STR(i1) & NUM_TO_STR(r1)',
+]
+RICH_FILE = ['OPENFILE "rich.txt" FOR WRITE', 'WRITEFILE "rich.txt", s1', 'WRITEFILE "rich.txt", i1', 'WRITEFILE "rich.txt", r1', 'WRITEFILE "rich.txt", rec1.s & a1[1]', 'CLOSEFILE "rich.txt"',
+             'OPENFILE "rich.txt" FOR READ', 'WHILE NOT EOF("rich.txt")', '  READFILE "rich.txt", line', '  OUTPUT "read ", line', 'ENDWHILE', 'CLOSEFILE "rich.txt"',
+             'OPENFILE "rich.dat" FOR RANDOM', 'PUTRECORD "rich.dat", rec1', 'SEEK "rich.dat", 2', 'rec2 <- recs[2]', 'PUTRECORD "rich.dat", rec2', 'SEEK "rich.dat", 1', 'GETRECORD "rich.dat", rec2', 'CLOSEFILE "rich.dat"',
+             'OUTPUT rec2.x, " ", rec2.s, " ", rec2.v[1]']
+RICH_DUMP = ['OUTPUT "== ", i1, " ", i2, " ", i3, " ", r1, " ", r2, " ", b1, " ", c1, " ", s1, " ", s2, " ", d1',
+             'FOR k <- 0 TO 3', '  OUTPUT a1[k], " ", a1b[k]', 'NEXT k', 'OUTPUT a2[1], "|", a2[2]',
+             'FOR k <- 1 TO 2', '  OUTPUT m2[k, -1], " ", m2[k, 0], " ", m2[k, 1]', 'NEXT k',
+             'FOR k <- 1 TO 3', '  OUTPUT ar[k], " ", recs[k].x, " ", recs[k].s, " ", recs[k].r, " ", recs[k].v[1], recs[k].v[2], recs[k].v[3]', 'NEXT k',
+             'OUTPUT rec1.x, " ", rec1.s, " ", rec1.r, " ", rec1.v[1], rec1.v[2], rec1.v[3]', 'OUTPUT rec2.x, " ", rec2.s, " ", rec2.r, " ", rec2.v[1], rec2.v[2], rec2.v[3]',
+             'OUTPUT col, " ", col2, " ", p^, " ", q^, " ", rp^.x, " ", KI, " ", KS']
+
+def rich_program(rng, pedantic_clean=True, with_files=True):
+    """scalars, arrays (1-D/2-D), records with array fields, arrays of records, pointers, enumerations, constants,
+    BYREF/BYVAL procedures, recursive and record-returning functions, text and random files — mixed at random
+    under generated control flow, then a full dump of the state"""
+    pre, env = prelude(rng)
+    for t, names in RICH_LVALS.items():
+        env.v[t] = env.v[t] + names
+    sg = StmtGen(rng, env, pedantic_clean=pedantic_clean)
+    body = []
+    for _ in range(rng.randint(3, 8)):
+        k = rng.random()
+        if k < 0.45:
+            body += sg.stmt(rng.randint(1, 3), '', False)
+        elif k < 0.9:
+            body.append(rng.choice(RICH_SPECIAL))
+            if rng.random() < 0.3:
+                it = sg.fresh('z'); sg.pre.append('DECLARE %s : INTEGER' % it)
+                body += ['FOR %s <- 1 TO %d' % (it, rng.randint(1, 3)), '  ' + rng.choice(RICH_SPECIAL), '  ' + rng.choice(RICH_SPECIAL), 'NEXT %s' % it]
+        elif with_files:
+            body += RICH_FILE
+    lines = RICH_DECLS[:2] + pre + RICH_DECLS[2:] + sg.pre + RICH_INIT + body + RICH_DUMP
+    return join(lines)
